@@ -45,7 +45,7 @@ impl LinkNameMatcher {
 }
 
 impl Matcher for LinkNameMatcher {
-    fn matches(&self, file_info: &WalkEntry, _: &mut MatcherIO) -> bool {
+    fn matches(&self, file_info: &WalkEntry, matcher_io: &mut MatcherIO) -> bool {
         // Only an entry that is itself a symbolic link has a link name.  A link
         // that the follow mode resolves (-L, or -H for a starting point) is
         // examined as its target, so -lname is false for it.
@@ -53,7 +53,8 @@ impl Matcher for LinkNameMatcher {
             return false;
         }
         if let Some(target) = read_link_target(file_info) {
-            self.pattern.matches(&target.to_string_lossy())
+            self.pattern
+                .matches_or_report(&target.to_string_lossy(), matcher_io)
         } else {
             false
         }
